@@ -386,9 +386,11 @@ Fixpoint eval (en : env) (sel : option nat) (stack : list value) (e : expr) {str
   | EVarIn v from to =>
       let* f := bind (eval en sel stack from) unwrap_number in
       let* t := bind (eval en sel stack to) unwrap_number in
-      if (0 <=? f)%Z && (0 <=? t)%Z && (f <=? t)%Z then
+      (* a negative lower bound is taken as 0 (`from.max(0)`), a negative upper bound gives false *)
+      let f0 := Z.max f 0 in
+      if (0 <=? t)%Z && (f0 <=? t)%Z then
         with_var en sel v (fun l =>
-          Ok (VBool (existsb (fun m => (Z.to_N f <=? mabs m) && (mabs m <=? Z.to_N t)) l)))
+          Ok (VBool (existsb (fun m => (Z.to_N f0 <=? mabs m) && (mabs m <=? Z.to_N t)) l)))
       else Ok (VBool false)
   | EUn o a => let* x := eval en sel stack a in eval_un o x
   | EBin o l r =>
